@@ -9,37 +9,37 @@ COMP = "trusted base: dependency shims (base v0.0.9 + API additions, overlays), 
 
 CHECKS = {
  "C01": dict(level="exploration", engine="world",
-   text="Seeded deterministic simulation of the whole system (driver, bigmachine workers over the simulated network, fake clock) running grammar-generated operator DAGs failure-free on both executors; scanned rows, WriterFunc/Scan observations and user counters are compared with a sequential reference evaluator. Exploration: thousands of distinct programs x configurations x schedules per run; a clean batch is evidence, not proof.",
+   text="Seeded deterministic simulation of the whole system (driver, bigmachine workers over the simulated network, fake clock) running grammar-generated operator DAGs failure-free on both executors; scanned rows, WriterFunc/Scan observations and user counters are compared with a sequential reference evaluator. Exploration: thousands of distinct programs x configurations x schedules per run; a clean batch is evidence, not proof. Every ninth program is a fan-out shape (one slice consumed directly and through shuffles of different widths, combiners, partitioners and key prefixes), every ninth a stream-consumer shape (a cluster task reading one encoded stream of shrinking batches through Filter/Flatmap).",
    design="§6 C01", technique="deterministic simulation, seeded schedule/program search, reference-model oracle", note=WHOLE),
  "C02": dict(level="fault_enumeration", engine="world",
-   text="Whole-system simulation with machine kills injected at named RPC seam events: for each base program of the fault suite a sweep runs one world per (seam event of the fault-free run x {kill callee, kill each other machine, drop the Worker.Run reply}); seeded plans add 1-4 faults (kill, drop, stall past the keepalive timeout, cut-stream) with and without replacement machines. Oracle: success with reference rows, or an error; rows delivered before a scan error are genuine; no hang in 4h simulated; success required when capacity to recover remains. Enumeration is over the seam events of the sampled programs, not over all programs.",
+   text="Whole-system simulation with machine kills injected at named RPC seam events: for each base program of the fault suite a sweep runs one world per (seam event of the fault-free run x {kill callee, kill each other machine, drop the Worker.Run reply}); seeded plans add 1-4 faults (kill, drop, stall past the keepalive timeout, cut-stream) with and without replacement machines. Oracle: success with reference rows, or an error; rows delivered before a scan error are genuine; no hang in 4h simulated; success required when capacity to recover remains. Enumeration is over the seam events of the sampled programs, not over all programs. Machines also die in the MIDDLE of streamed Worker.Read bodies (fault cutkill: deliver k bytes, fail the stream, kill the serving machine) at 1/4, 1/2, 3/4 of every body and exactly on gob message boundaries (every batch boundary is one); fixed scan-resume programs (Fold output / map-only output), a range-clustered Reduce (one stream left in the reduce-side merge) and programs whose combining tasks read over the network are swept that way. A scan that cannot resume because the recomputed shard differs is a known finding of its own class (scan-not-resumable); the silent variant of it was a genuine defect, repaired in /repo.",
    design="§6 C02", technique="deterministic simulation with fault injection: single-fault sweep over RPC seam events + seeded multi-fault plans", note=WHOLE),
  "C06": dict(level="fault_enumeration", engine="world",
-   text="User-function failures injected as faults (error / temporary error / panic / out-of-range partition; persistent or one-shot; first row, vector boundary, last row, end-of-stream) at every user-function site of three template programs, on four executor configurations, enumerated completely and then re-sampled under other seeds; each case is its own OS process so a driver crash is observed as such. Oracle: Run returns an error carrying the injected marker (reader/writer errors, all panics), temporary one-shot failures do not fail the run, the session stays usable, no hang.",
+   text="User-function failures injected as faults (error / temporary error / panic / out-of-range partition; persistent or one-shot; first row, vector boundary, last row, end-of-stream) at every user-function site of three template programs, on four executor configurations, enumerated completely and then re-sampled under other seeds; each case is its own OS process so a driver crash is observed as such. Oracle: Run returns an error carrying the injected marker (reader/writer errors, all panics), temporary one-shot failures do not fail the run, the session stays usable, no hang. A fourth template puts reader/writer functions in tasks that feed a shuffle without a combiner; discard-cycle scenarios: a source that fails temporarily on the first attempt of every re-execution while its Result is discarded and consumed again 5-7 times (every run must succeed).",
    design="§6 C06", technique="deterministic simulation with fault injection: enumerated user-function fault cross product, process-isolated runs", note=WHOLE),
  "C04": dict(level="exploration", engine="world",
-   text="Differential simulation: each generated program runs in 9 separately simulated worlds, one per execution strategy (local p=1/p=8, cluster 1x1 and 4x2, machine combiners, tiny vector size, tiny vector + sort canary + reader shuffling, Materialize/Procs/Exclusive pragmas, a random configuration), under seeded schedules; rows must equal the reference in every world and agree across the group; user counters must equal the model's call counts in every world.",
+   text="Differential simulation: each generated program runs in 9 separately simulated worlds, one per execution strategy (local p=1/p=8, cluster 1x1 and 4x2, machine combiners, tiny vector size, tiny vector + sort canary + reader shuffling, Materialize/Procs/Exclusive pragmas, a random configuration), under seeded schedules; rows must equal the reference in every world and agree across the group; user counters must equal the model's call counts in every world. One group in eight is a stream-consumer shape (the codec path only the cluster executor takes).",
    design="§6 C04", technique="deterministic simulation, configuration swarm, differential + reference-model oracle", note=WHOLE),
  "C05": dict(level="exploration", engine="world",
-   text="Simulated distributed runs record (shard,key) right after every redistributing operator; co-location is an invariant of each run, and the key->shard table must agree across groups of 8 runs (separate OS processes) that differ in operator, producer count/kind, vector size, executor, cluster shape and seeds; thorough tier covers the full 8- and 16-bit key ranges. The quantification over key values is input enumeration carried by the simulator (said so in DESIGN).",
+   text="Simulated distributed runs record (shard,key) right after every redistributing operator; co-location is an invariant of each run, and the key->shard table must agree across groups of 8 runs (separate OS processes) that differ in operator, producer count/kind, vector size, executor, cluster shape and seeds; thorough tier covers the full 8- and 16-bit key ranges. The quantification over key values is input enumeration carried by the simulator (said so in DESIGN). One member of each group redistributes the two-column-keyed Result of an earlier invocation through a one-column view. Thorough re-runs half of the local-executor members under the race detector (in race runs the harness hook inside user functions touches no shared state, so that it orders nothing).",
    design="§6 C05", technique="deterministic simulation, cross-process placement-table agreement, invariant monitor", note=WHOLE),
  "C08": dict(level="exploration", engine="world",
-   text="In every simulated cluster run the task graph compiled by each worker (read from the live worker through a tagged accessor) is compared with the driver's, with a recompilation and with a compilation after a gob round trip of the invocation; a well-formedness oracle stated from the property is evaluated on the driver graph; graph digests are compared across groups of 4 separately started processes with different seeded map/select orders. Programs include fan-out shapes (one source, Materialize source or reused Result consumed directly and by shuffles of different widths, combiners and partitioners at once); a dependency must be wired as a shuffle exactly when the slice graph says so.",
+   text="In every simulated cluster run the task graph compiled by each worker (read from the live worker through a tagged accessor) is compared with the driver's, with a recompilation and with a compilation after a gob round trip of the invocation; a well-formedness oracle stated from the property is evaluated on the driver graph; graph digests are compared across groups of 4 separately started processes with different seeded map/select orders. Programs include fan-out shapes (one source, Materialize source or reused Result consumed directly and by shuffles of different widths, combiners and partitioners at once); a dependency must be wired as a shuffle exactly when the slice graph says so. A Result is also consumed through a Prefixed view by pipelined and shuffling operators (the new invocation's tasks must start at the Result whatever wraps it); fan-out under different key prefixes.",
    design="§6 C08", technique="deterministic simulation with seeded runtime randomness, invariant monitor on live driver/worker state, cross-process digest agreement", note=WHOLE),
  "C12": dict(level="exploration", engine="world",
-   text="Seeded client histories (run, scan, scan||scan, run over 1-2 earlier Results through pipelined or redistributing operators, discard, discard||run, kill machine) on both executors in one simulated session; every Result is modelled by the reference rows of its program over its arguments' model rows; every successful scan must equal the model, Funcs run after discards/kills must succeed, nothing may hang. Network delays on Worker.Discard/Run decide the discard/run interleavings.",
+   text="Seeded client histories (run, scan, scan||scan, run over 1-2 earlier Results through pipelined or redistributing operators, discard, discard||run, kill machine) on both executors in one simulated session; every Result is modelled by the reference rows of its program over its arguments' model rows; every successful scan must equal the model, Funcs run after discards/kills must succeed, nothing may hang. Network delays on Worker.Discard/Run decide the discard/run interleavings. A slow consumer keeps a Scanner open part-way through a result while it is discarded (and consumed again): the scan delivers exactly the rows or an error.",
    design="§6 C12", technique="deterministic simulation, seeded operation histories against a reference model", note=WHOLE),
  "C19": dict(level="exploration", engine="world",
    text="2-5 concurrent client goroutines in one simulated session share base results (runs through pipelined and redistributing operators, scans, optional discard); seeded virtual delays at RPC seams, in user functions and at the simhook yield points order the elections and wake-ups; each successful scan equals the reference of its program as if alone; a yield-hook monitor checks that no task has two Executor.Run calls in flight; thorough tier re-runs every third case under the race detector (race reports with /repo frames are violations). Also: one client cancels its run part-way (after a simulated duration or after the n-th simulator event) over a freshly discarded shared result, and overlapping results are discarded twice; the other clients must be served as if alone; a goroutine blocked for good on a mutex inside bigslice (real-time stall, goroutine dump analysed, case re-run) is reported as deadlock.",
    design="§6 C19", technique="deterministic simulation with seeded yield/delay schedules, reference-model oracle, in-flight monitor, race detector in thorough tier", note=WHOLE),
  "C13": dict(level="fault_enumeration", engine="world",
-   text="Two-process cache histories on a simulated file system (base/file scheme simfs://, commit-on-close semantics): process 1 runs a program with a Cache/CachePartial operator clean, or with an error / short write / sticky error at the k-th create, write, close or stat of the cache files, or with a crash-stop at the k-th file operation (the process exits; only published files survive in a snapshot), or with a machine kill or a reader error; process 2 starts from the surviving files (optionally minus a subset) and runs the same program. Oracles: rows equal the reference, every published shard file decodes with the real decoder to exactly its shard's reference rows at the start and end of every process, process 2 succeeds, cached shards are not recomputed (user-function call counts). Fault positions are seeded, not exhaustively swept, in the quick tier.",
+   text="Two-process cache histories on a simulated file system (base/file scheme simfs://, commit-on-close semantics): process 1 runs a program with a Cache/CachePartial operator clean, or with an error / short write / sticky error at the k-th create, write, close or stat of the cache files, or with a crash-stop at the k-th file operation (the process exits; only published files survive in a snapshot), or with a machine kill or a reader error; process 2 starts from the surviving files (optionally minus a subset) and runs the same program. Oracles: rows equal the reference, every published shard file decodes with the real decoder to exactly its shard's reference rows at the start and end of every process, process 2 succeeds, cached shards are not recomputed (user-function call counts). Fault positions are seeded, not exhaustively swept, in the quick tier. After a fault-free run that succeeded (and no Head downstream) every shard's file — also of shards without rows — must exist, or the next run cannot skip the computation; caches are also placed directly on a materialized input (first operator of its task).",
    design="§6 C13", technique="deterministic simulation with disk fault injection and crash-restart across OS processes, durable-state invariant + reference-model oracle", note=WHOLE + "; built with CGO_ENABLED=0 (klauspost zstd) except the one recorded reproduction of the DataDog-zstd dependency finding"),
  "C03": dict(level="exploration", engine="comp",
    text="The real exec.Eval is driven by a simulated Executor that decides every task outcome at quiescent points of a synctest bubble (OK / LOST / fatal, via RUNNING or not, loss of completed tasks, a second evaluation over overlapping roots) over seeded task graphs with initial states as earlier evaluations leave them; safety and progress oracles are evaluated over the recorded history with event sequence numbers (dependencies OK in the window before each hand-out, single hand-out, only needed tasks, nil only if all roots were OK, give-up limit, something always in flight, termination after faults stop). ~200k scenarios per quick run.",
    design="§6 C03", technique="deterministic simulation of the evaluator against a simulated executor: seeded outcome/fault histories, history oracles, shrinking", note=COMP),
  "C07": dict(level="fault_enumeration", engine="comp",
-   text="Real encoder -> simulated byte channel -> real decoder. For every generated small stream (<= 600 bytes) every single-bit flip and every truncation point is enumerated; large streams get seeded damage restricted to classes a CRC-32 must detect, plus truncations, short reads and EOF vs unexpected-EOF at the cut. Oracle: delivered rows are exactly the written rows in order; damage gives a non-EOF error and no row of a later batch.",
+   text="Real encoder -> simulated byte channel -> real decoder. For every generated small stream (<= 600 bytes) every single-bit flip and every truncation point is enumerated; large streams get seeded damage restricted to classes a CRC-32 must detect, plus truncations, short reads and EOF vs unexpected-EOF at the cut. Oracle: delivered rows are exactly the written rows in order; damage gives a non-EOF error and no row of a later batch. Half of the processes register the custom column codec in its in-place gob variant, which relies on destination rows being zeroed before user decoders run.",
    design="§6 C07", technique="fault injection on a simulated byte channel: exhaustive single-bit/truncation sweep of small streams + seeded damage of large ones", note=COMP),
  "C10": dict(level="exploration", engine="comp",
    text="sortio.SortReader / NewMergeReader / Reduce over simulated upstream readers (chunking, empty reads, rows-with-EOF, injected read error at the k-th read) with spill targets from 1 byte and per-process vector/canary/spill-batch sizes from 1 up; oracles: sorted multiset / sorted union / one folded row per key; injected errors are reported, never replaced by EOF; no spill directory survives the constructor.",
@@ -48,19 +48,19 @@ CHECKS = {
    text="Every library and operator reader is driven by a simulated upstream (scripted chunking incl. empty non-EOF reads and rows-with-EOF, injected read errors) and a simulated consumer (seeded destination sizes, poisoned destination frames taken as views at an offset); oracles: count bounds, nothing written outside the returned rows or the view, same row sequence for every chunking pair, earlier frames unchanged, sticky EOF, errors propagated; scanner arity/type rejection. The stream encoder/decoder pair is one of the readers (batches of growing and shrinking sizes).",
    design="§6 C17", technique="deterministic simulation of upstream/consumer around each reader, seeded chunkings, poison-frame oracle", note=COMP),
  "C09": dict(level="exploration", engine="comp",
-   text="The combining frame is fed EVERY key sequence up to a length bound over a 4-key alphabet into tables of initial size 1..8 (all probe sequences, resizes and compaction orders of a size-8 table) plus seeded streams; the spilling combiner is fed by 1-4 simulated producer tasks in a seeded interleaving with spill thresholds from 1 key upward and per-process vector sizes, read back through Reader or WriteTo+decoder or discarded; oracle: one row per key, ascending order, value == fold, no spill directory left. No fault dimension (the spiller has no seam); said so in DESIGN. A read-back fault (a spill file that cannot be opened) must be reported and must not leave spill directories behind. A reproducible crash or hang of the code under test is a violation.",
+   text="The combining frame is fed EVERY key sequence up to a length bound over a 4-key alphabet into tables of initial size 1..8 (all probe sequences, resizes and compaction orders of a size-8 table) plus seeded streams; the spilling combiner is fed by 1-4 simulated producer tasks in a seeded interleaving with spill thresholds from 1 key upward and per-process vector sizes, read back through Reader or WriteTo+decoder or discarded; oracle: one row per key, ascending order, value == fold, no spill directory left. No fault dimension (the spiller has no seam); said so in DESIGN. A read-back fault (a spill file that cannot be opened) must be reported and must not leave spill directories behind. A reproducible crash or hang of the code under test is a violation. Rare hot-key cases combine one or two keys 66 000-140 000 times into a table that never spills.",
    design="§6 C09", technique="component simulation: seeded producer interleavings and size knobs, bounded-exhaustive key sequences, durable-state inspection", note=COMP),
  "C14": dict(level="exploration", engine="comp",
-   text="Two layers. The real machineManager.Do runs over the simulated bigmachine system under a fake clock and is driven by seeded offer/cancel/done(ok|remote|transport)/kill/time-advance histories; capacity, probation, dead-machine, ordering (single-machine steps only), conservation and machine-count oracles use grants and returns only. In addition a whole-system monitor observes the driver's assignment intervals (offered/returned yield points) in simulated cluster runs with Procs/Exclusive pragmas, exclusive Funcs and faults on every step of a task run, and the local executor's concurrency inside user functions. Scenarios with several machines on probation at once, one of them dying; a reproducible crash of the manager goroutine is a violation.",
+   text="Two layers. The real machineManager.Do runs over the simulated bigmachine system under a fake clock and is driven by seeded offer/cancel/done(ok|remote|transport)/kill/time-advance histories; capacity, probation, dead-machine, ordering (single-machine steps only), conservation and machine-count oracles use grants and returns only. In addition a whole-system monitor observes the driver's assignment intervals (offered/returned yield points) in simulated cluster runs with Procs/Exclusive pragmas, exclusive Funcs and faults on every step of a task run, and the local executor's concurrency inside user functions. Scenarios with several machines on probation at once, one of them dying; a reproducible crash of the manager goroutine is a violation. Whole-system part: tasks failing in user code (persistent panic in a reduce function wherever it is called from, reader errors) are exit paths too; a fault-free run afterwards has to find all capacity returned, on both executors.",
    design="§6 C14", technique="deterministic simulation of the live manager with fault injection (machine kills, transport errors, clock), invariant monitor on whole-system runs", note=COMP + "; " + WHOLE),
  "C15": dict(level="fault_enumeration", engine="comp",
    text="File and memory task stores over the simulated disk: sequential histories checked against a map model, each re-run with an error at EVERY file operation of its fault-free run and a short write at every write; concurrent clients stepped one file operation at a time by a seeded scheduler and checked with porcupine against a nondeterministic register model; the retrying remote reader over a scripted opener with a fake clock, exhaustive over failure positions for short streams with <= 3 failures. Keys name (task, partition) entries, so tasks with several partitions are written, read and discarded in any order.",
    design="§6 C15", technique="disk fault enumeration on a simulated file system, cooperative scheduling + porcupine linearizability, exhaustive failure scripts for the retry reader", note=COMP),
  "C16": dict(level="exploration", engine="world",
-   text="Funcs whose rows render their arguments as seen by the invoking process are run on the simulated cluster (and locally) with seeded argument lists over scalars, slices, maps, structs, pointers, interface parameters, nil values, Results and nested Results; rows must render the driver's arguments, worker graphs must equal the driver's; unencodable arguments must give an error with no repeated Worker.Run/Compile; registry skew is injected as a transport fault on the FuncLocations reply and must be refused iff the lists differ; the FuncLocationsDiff law is checked exhaustively for lists up to length 5 (pure side-oracle). Also: Results reachable directly and through other Result arguments with the last invocation landing on machines that ran nothing before; an invocation that is never run itself (its Func returns its Result argument) carrying an unencodable argument must fail at once when its Result is used, and no task may be submitted to the executor twice in a run without injected faults.",
+   text="Funcs whose rows render their arguments as seen by the invoking process are run on the simulated cluster (and locally) with seeded argument lists over scalars, slices, maps, structs, pointers, interface parameters, nil values, Results and nested Results; rows must render the driver's arguments, worker graphs must equal the driver's; unencodable arguments must give an error with no repeated Worker.Run/Compile; registry skew is injected as a transport fault on the FuncLocations reply and must be refused iff the lists differ; the FuncLocationsDiff law is checked exhaustively for lists up to length 5 (pure side-oracle). Also: Results reachable directly and through other Result arguments with the last invocation landing on machines that ran nothing before; an invocation that is never run itself (its Func returns its Result argument) carrying an unencodable argument must fail at once when its Result is used, and no task may be submitted to the executor twice in a run without injected faults. A transient loss of the request or reply of a Worker.Compile must leave the invocation intact on retry; typed nil pointers inside interface parameters; the capacity monitor rides along on cluster runs.",
    design="§6 C16", technique="deterministic simulation: argument transport over the simulated network, registry skew as a transport fault, seam-log oracle for retries", note=WHOLE),
  "C20": dict(level="exploration", engine="comp",
-   text="Scope operations (Incr/Value/Merge) from 2-4 logical threads are stepped one yield point at a time (before each load/CAS that creates scope storage or instances) by a seeded scheduler and checked with porcupine per (scope, counter); merge/reset/gob laws on seeded scopes; the end-to-end total is checked by a whole-system batch on both executors (counters of a Result, also over a reused Result, == the reference's per-row call counts).",
+   text="Scope operations (Incr/Value/Merge) from 2-4 logical threads are stepped one yield point at a time (before each load/CAS that creates scope storage or instances) by a seeded scheduler and checked with porcupine per (scope, counter); merge/reset/gob laws on seeded scopes; the end-to-end total is checked by a whole-system batch on both executors (counters of a Result, also over a reused Result, == the reference's per-row call counts). In 3 of 10 cluster runs the reply of one Worker.Run is dropped in transit (no machine lost) and the totals must be unchanged.",
    design="§6 C20", technique="cooperative scheduling at yield points + porcupine; whole-system reference-model oracle for totals", note=COMP + "; " + WHOLE),
 }
 
